@@ -88,3 +88,53 @@ M("cp_wrong_bound_lower", "breakpoints of decreasing variables computed from the
 M("cp_f2_no_memory_term", "f'' update drops the memory term", ["C08"],
   ("lbfgsb/cauchy.py", "            f_second -= g_b * W_b.dot(bmv(mats.invMfactors, (2 * p + g_b * W_b)))\n",
    "            f_second -= g_b * W_b.dot(bmv(mats.invMfactors, (2 * p)))\n"))
+
+# --- subspacemin.py -----------------------------------------------------------
+M("ss_sign", "missing minus sign of eq. 5.11", ["C09", "C01"],
+  ("lbfgsb/subspacemin.py", "    dHat = -invThet * (rHat + invThet * np.transpose(WTZ).dot(v))", "    dHat = invThet * (rHat + invThet * np.transpose(WTZ).dot(v))"))
+M("ss_ub_minus_x", "(ub - x) instead of (ub - xc) in the truncation", ["C09", "C02"],
+  ("lbfgsb/subspacemin.py", "                dHat[mask] > 0, (ub - xc)[free_vars][mask], (lb - xc)[free_vars][mask]",
+   "                dHat[mask] > 0, (ub - x)[free_vars][mask], (lb - x)[free_vars][mask]"))
+M("ss_no_truncation", "truncation to the box dropped", ["C09", "C02"],
+  ("lbfgsb/subspacemin.py", "    return xc + alpha_star * Z @ dHat", "    return xc + Z @ dHat"))
+M("ss_K_theta", "K built with 1/theta dropped", ["C09"],
+  ("lbfgsb/subspacemin.py", "    K[:m, :m] = -mats.D - (1 / mats.theta) * YTZZTY", "    K[:m, :m] = -mats.D - YTZZTY"))
+M("ss_r_no_memory", "reduced gradient without the memory term", ["C09"],
+  ("lbfgsb/subspacemin.py", "        r -= mats.W.dot(bmv(mats.invMfactors, c))\n", "        pass\n"))
+M("ss_free_includes_bound", "variables on the lower bound treated as free", ["C09"],
+  ("lbfgsb/subspacemin.py", "    free_vars: NDArrayInt = ((x_cp != ub) & (x_cp != lb)).nonzero()[0]", "    free_vars: NDArrayInt = ((x_cp != ub)).nonzero()[0]"))
+M("ss_alpha_no_cap", "alpha* not capped at 1", ["C09"],
+  ("lbfgsb/subspacemin.py", "    alpha_star = min(\n        1.0,\n        np.nanmin(", "    alpha_star = min(\n        1e9,\n        np.nanmin("))
+M("ss_second_block_sign", "sign flip of the first half dropped in the LEL^T solve", ["C09"],
+  ("lbfgsb/subspacemin.py", "        v[: int(LK.shape[0] / 2)] *= -1\n", ""))
+
+# --- linesearch.py ------------------------------------------------------------
+M("ls_no_projection", "pinned defect: trial points not projected (reverse of fix 2db2e5f, line-search part)", ["C11", "C02", "C16"],
+  ("lbfgsb/linesearch.py", "            f_m1, dphi_m1 = sf.fun_and_grad(np.clip(x0 + steplength * d, lb, ub))\n",
+   "            f_m1, dphi_m1 = sf.fun_and_grad(x0 + steplength * d)\n"))
+M("main_no_projection", "pinned defect: iterate update not projected (reverse of fix 2db2e5f, main part)", ["C02", "C16"],
+  ("lbfgsb/main.py", "            np.clip(x + steplength * d, lb, ub, out=x)\n", "            x += steplength * d\n"))
+M("ls_best_pinned", "pinned defect: best_stp compares with the previous trial only (reverse of fix 3a12e86)", ["C11", "C03"],
+  ("lbfgsb/linesearch.py", "            if f_m1 < best_f:\n                best_f = f_m1\n                best_stp = steplength\n",
+   "            best_stp = steplength if f_m1 < best_f else best_stp\n            best_f = f_m1\n"),
+  ("lbfgsb/linesearch.py", "    if best_stp is None:\n        return None\n", "    if best_stp is None:\n        best_stp = steplength_0\n"))
+M("ls_accept_last", "accept the last trial on WARNING / cap", ["C11", "C03"],
+  ("lbfgsb/linesearch.py", "    if best_stp is None:\n        return None\n\n    steplength = best_stp\n", "    steplength = steplength_0\n"))
+M("ls_le", "< -> <= in the best-trial test (returns a non-improving step)", ["C11", "C03"],
+  ("lbfgsb/linesearch.py", "            if f_m1 < best_f:\n", "            if f_m1 <= best_f:\n"))
+M("ls_cap_off_by_one", "evaluation cap off by one", ["C11", "C04"],
+  ("lbfgsb/linesearch.py", "    while _iter < max_iter:\n", "    while _iter <= max_iter:\n"))
+M("ls_amax_wrong_bound", "max step computed with the wrong bound for d < 0", ["C11", "C02"],
+  ("lbfgsb/linesearch.py", "            d[_mask] > 0, (ub - x)[_mask] / d[_mask], (lb - x)[_mask] / d[_mask]\n",
+   "            d[_mask] > 0, (ub - x)[_mask] / d[_mask], (x - ub)[_mask] / d[_mask]\n"))
+M("ls_first_step_unit", "first step 1 instead of 1/||d||", ["C12"],
+  ("lbfgsb/linesearch.py", "        steplength_0 = min(1.0 / np.sqrt(d.dot(d)), max_steplength)\n", "        steplength_0 = min(1.0, max_steplength)\n"))
+M("ls_default_ftol", "ftol_linesearch default 1e-4", ["C12"],
+  ("lbfgsb/main.py", "    ftol_linesearch: float = 1e-3,\n", "    ftol_linesearch: float = 1e-4,\n"))
+M("ls_default_gtol", "gtol_linesearch default 0.5", ["C12"],
+  ("lbfgsb/main.py", "    gtol_linesearch: float = 0.9,\n", "    gtol_linesearch: float = 0.5,\n"))
+M("ls_default_epsSY", "eps_SY default 1e-8", ["C12"],
+  ("lbfgsb/main.py", "    eps_SY: float = 2.2e-16,\n", "    eps_SY: float = 1e-8,\n"))
+M("ls_clip_only_upper", "trial points clipped to the upper bound only", ["C11", "C02"],
+  ("lbfgsb/linesearch.py", "            f_m1, dphi_m1 = sf.fun_and_grad(np.clip(x0 + steplength * d, lb, ub))\n",
+   "            f_m1, dphi_m1 = sf.fun_and_grad(np.minimum(x0 + steplength * d, ub))\n"))
